@@ -794,6 +794,10 @@ class ModuleEncoder(BaseEncoder):
             return isinstance(value, types.ModuleType)
 
     def encode(self):
+        if self.target.refmode not in (None, "auto"):
+            # Keep the reference mode
+            return "(\"Module\", \"%s\", \"%s\")" % (
+                self.target.value.__name__, self.target.refmode)
         return "(\"Module\", \"%s\")" % self.target.value.__name__
 
 
